@@ -276,16 +276,8 @@ def setBoxedCell (fuel : Nat) (s : Heap) (c : Cell) (p : Pay) : Option (Heap × 
 def leafOp (fuel : Nat) (ds : DblSem) (rd : Nat → Cell) (s : Heap) (c : Cell) : LeafS → Option (Heap × Cell)
   | .assign src =>
     -- operator=(const Variant&): take the source first, then clear(), then install
-    (match src with
-     | .var w =>
-       let (s1, c') := copyCell s (rd w)
-       (release fuel s1 c).map (fun s2 => (s2, c'))
-     | .lit x =>
-       let (s0, t) := mkLit s x
-       let (s1, c') := copyCell s0 t
-       (match release fuel s1 c with
-        | some s2 => (release fuel s2 t).map (fun s3 => (s3, c'))
-        | none => none))
+    let (s1, c') := srcCopy rd s src
+    (release fuel s1 c).map (fun s2 => (s2, c'))
   | .set e =>
     (match e with
      | .lit x =>
